@@ -2,8 +2,11 @@
 
 package websocket
 
+import "time"
+
 // netconn.go is shared with the Wasm build; its verification hook is a no-op there.
-func (c *Conn) vEv(ev string, a, b, d, e int64)    {}
-func (c *Conn) vErr(ev string, err error, a int64) {}
-func (c *Conn) vNcNew(r, w *mu, re, we *int64)     {}
-func vNcEntry(expired *int64)                      {}
+func (c *Conn) vEv(ev string, a, b, d, e int64)      {}
+func (c *Conn) vErr(ev string, err error, a int64)   {}
+func (c *Conn) vNcNew(r, w *mu, re, we *int64)       {}
+func vNcEntry(expired *int64)                        {}
+func (c *Conn) vNcT(ev string, a int64, t time.Time) {}
